@@ -7,7 +7,7 @@ CONSTANTS
   RPass = {"p1"}
   MaxHist = 0
   MaxLines = 0
-INVARIANT WTypeOK Inv_NoCrash Inv_Count Inv_End
+INVARIANT WTypeOK Inv_NoCrash Inv_Count Inv_End Inv_Stream
 PROPERTIES P_C12
 CONSTRAINT EmitStream
 CHECK_DEADLOCK FALSE
